@@ -5,7 +5,7 @@ Reads /tmp/seed/out/<ID>/<mN>/{patch.diff,demo.cxx,build_demo.sh,NOTES.md,confir
 import sys, os, shutil, json, re
 src, name, caught, what, needs = sys.argv[1:6]
 pid = src.split("/")[0]
-sd = "/tmp/seed/out/" + src
+sd = os.environ.get("SEED_OUT", "/tmp/seed/out") + "/" + src
 dd = "/verif/seeded/" + name
 os.makedirs(dd, exist_ok=True)
 for f in ("patch.diff", "demo.cxx", "build_demo.sh", "NOTES.md"):
@@ -13,7 +13,7 @@ for f in ("patch.diff", "demo.cxx", "build_demo.sh", "NOTES.md"):
         shutil.copy(os.path.join(sd, f), dd)
 conf = open(os.path.join(sd, "confirm.log")).read() if os.path.exists(os.path.join(sd, "confirm.log")) else ""
 lines = [l for l in conf.splitlines() if l.startswith(("ctest with patch", "demo WITH", "demo WITHOUT", "CONFIRMED"))]
-res = open("/tmp/seed/results.txt").read().split("=== ")
+res = open(os.environ.get("SEED_RESULTS", "/tmp/seed/results.txt")).read().split("=== ")
 mine = [r for r in res if r.startswith(src + "\n")]
 chk = [l for l in (mine[-1].splitlines() if mine else []) if re.match(r"^(C\d\d tier=|VIOLATION|OK|  detail)", l)][:4]
 meta = {"property": pid, "origin": "independent sub-agent given only the property text and a scratch worktree",
